@@ -495,6 +495,12 @@ func genRandom(r *runner, rng *hx.Rng, thorough bool) {
 
 		for i := 1; i <= nd; i++ {
 			d := Desc{ID: i, Schema: []Sch{{URI: 1 + g.Intn(2)*g.Intn(2)}}}
+			if g.Intn(5) == 0 {
+				d.Schema = []Sch{{URI: []int{2, 12, 3, 14, 4, 9}[g.Intn(6)], Required: g.Intn(3) == 0}}
+				if g.Bool() {
+					d.Schema = append(d.Schema, Sch{URI: []int{1, 2, 12, 3}[g.Intn(4)]})
+				}
+			}
 
 			for gi := 1; gi <= ngroups; gi++ {
 				if g.Intn(2) == 0 {
@@ -551,7 +557,11 @@ func genRandom(r *runner, rng *hx.Rng, thorough bool) {
 		for i := 0; i < nc; i++ {
 			c := Cred{ID: i + 1, Issuer: 50 + g.Intn(2), Subject: 50 + g.Intn(3), Types: []int{1}}
 			if g.Intn(3) == 0 {
-				c.Types = append(c.Types, 2)
+				c.Types = append(c.Types, 2+g.Intn(3))
+			}
+
+			if g.Intn(3) == 0 {
+				c.Ctx = 2
 			}
 
 			if g.Intn(6) == 0 {
@@ -956,5 +966,130 @@ func genDisclosure(r *runner, rng *hx.Rng, thorough bool) {
 		}
 
 		r.do("disclosure", Case{Def: Defn{Reqs: reqs, Descs: descs}, Creds: creds}, true)
+	}
+}
+
+// genSizes: many credentials in one presentation / many presentations: the index arithmetic of the descriptor map
+// ($.verifiableCredential[j], $[i]) with one- and two-digit indices, through every entry point.
+func genSizes(r *runner, rng *hx.Rng, thorough bool) {
+	r.all = true
+
+	defer func() { r.all = false }()
+
+	sizes := []int{1, 2, 9, 10, 11, 12, 25}
+	if thorough {
+		sizes = append(sizes, 26, 99, 100, 101)
+	}
+
+	for _, n := range sizes {
+		for variant := 0; variant < 3; variant++ {
+			var creds []Cred
+
+			for i := 0; i < n; i++ {
+				c := Cred{ID: i + 1, Issuer: 50, Subject: 60, Types: []int{1}, Attrs: []Attr{{K: 1, V: num(int64(i % 3))}, {K: 2, V: str(i % 2)}}}
+				if variant == 2 && i%5 == 4 {
+					c.JWT = 1
+				}
+
+				creds = append(creds, c)
+			}
+
+			var descs []Desc
+
+			switch variant {
+			case 0: // one descriptor, every credential under it
+				descs = []Desc{{ID: 1, Schema: []Sch{{URI: 1}}}}
+			case 1: // two descriptors splitting the credentials by a member, one shared class
+				descs = []Desc{
+					{ID: 1, Schema: []Sch{{URI: 1}}, Cons: &Cons{Fields: []Field{{Paths: []int{1}, Filter: &Filter{Type: 1, Max: i64(1)}}}}},
+					{ID: 2, Schema: []Sch{{URI: 1}}, Cons: &Cons{Fields: []Field{{Paths: []int{1}, Filter: &Filter{Type: 1, Min: i64(1)}}}}},
+				}
+			default: // three descriptors in reverse definition order, the last one over a string member
+				descs = []Desc{
+					{ID: 3, Schema: []Sch{{URI: 1}}, Cons: &Cons{Fields: []Field{constField(2, str(1))}}},
+					{ID: 2, Schema: []Sch{{URI: 1}}, Cons: &Cons{Fields: []Field{constField(1, num(2))}}},
+					{ID: 1, Schema: []Sch{{URI: 1}}},
+				}
+			}
+
+			// shuffle the holder's list in two of three runs
+			if variant > 0 {
+				for i := len(creds) - 1; i > 0; i-- {
+					j := rng.Intn(i + 1)
+					creds[i], creds[j] = creds[j], creds[i]
+				}
+			}
+
+			r.do(fmt.Sprintf("sizes:n%d", n), Case{Def: Defn{Descs: descs}, Creds: creds}, true)
+		}
+	}
+}
+
+func permutations(n int) [][]int {
+	if n == 0 {
+		return [][]int{{}}
+	}
+
+	var out [][]int
+
+	for _, p := range permutations(n - 1) {
+		for pos := 0; pos <= len(p); pos++ {
+			q := append([]int{}, p[:pos]...)
+			q = append(q, n-1)
+			q = append(q, p[pos:]...)
+			out = append(out, q)
+		}
+	}
+
+	return out
+}
+
+// genContexts: credentials whose type TERM is the same but stands for different IRIs under the two contexts (and a
+// term that stands for the same IRI in both), schema lists naming either IRI, every order of the holder's list.
+func genContexts(r *runner, rng *hx.Rng, thorough bool) {
+	mk := func(id, ctx int, types ...int) Cred {
+		return Cred{ID: id, Issuer: 50, Subject: 60, Ctx: ctx, Types: append([]int{1}, types...), Attrs: []Attr{{K: 1, V: num(int64(id))}}}
+	}
+
+	sets := [][]Cred{
+		{mk(1, 1, 2), mk(2, 2, 2)},
+		{mk(1, 1, 2), mk(2, 2, 2), mk(3, 1, 3)},
+		{mk(1, 2, 4), mk(2, 1, 4), mk(3, 2, 3)},
+		{mk(1, 1, 2, 4), mk(2, 2, 2), mk(3, 2, 4)},
+		{mk(1, 2, 2), mk(2, 2, 3), mk(3, 1, 2, 3)},
+	}
+	schemas := [][]Sch{{{URI: 2}}, {{URI: 12}}, {{URI: 3}}, {{URI: 14}}, {{URI: 4}}, {{URI: 2}, {URI: 14}}, {{URI: 12, Required: true}, {URI: 3}},
+		{{URI: 2, Required: true}, {URI: 12, Required: true}}, {{URI: 1}, {URI: 12, Required: true}}}
+
+	r.all = true
+
+	defer func() { r.all = false }()
+
+	for si, set := range sets {
+		for ci, sc := range schemas {
+			for pi, perm := range permutations(len(set)) {
+				if !thorough && len(set) == 3 && rng.Intn(2) == 0 {
+					continue
+				}
+
+				var creds []Cred
+				for _, i := range perm {
+					creds = append(creds, set[i])
+				}
+
+				descs := []Desc{{ID: 1, Schema: sc}}
+				if (si+ci+pi)%3 == 0 {
+					descs = append(descs, Desc{ID: 2, Schema: schemas[(ci+3)%len(schemas)], Groups: []int{1}})
+					descs[0].Groups = []int{1}
+				}
+
+				var reqs []SReq
+				if len(descs) == 2 && pi%2 == 0 {
+					reqs = []SReq{{Min: 1, From: 1}}
+				}
+
+				r.do(fmt.Sprintf("contexts:s%d.c%d", si, ci), Case{Def: Defn{Reqs: reqs, Descs: descs}, Creds: creds}, true)
+			}
+		}
 	}
 }
